@@ -6,7 +6,7 @@ PROP = dict(
           "whether it carries a signature (composites and first field blocks do), DB.VerifySignature with the signer's key, another key of the same type and a key of the other type; for every signed block "
           "every single-field tampering (delta priority, delta data, added parent, dropped/added link, encryption link) re-encoded under the original signature, and every tampering of the signature block "
           "(value bit flip, identity replaced by another public key, type swapped), each pushed through the DAG-sync entry point as the head and as a block linked from a wrapper head, with an offline block "
-          "service holding the genuine blocks; a case is one (block, operation); all distinct"),
+          "service holding the genuine blocks; a case is one (block, operation); all distinct; per key type 3000 messages are signed and verified under the key (and must not verify after a bit flip)"),
     assumptions=[
         "ECDSA secp256k1 / Ed25519 are correct, unforgeable and binding in the idealised sense of the Scheme structure (the toy instance shows the laws are consistent)",
         "the merge event is raised by the push-log handler iff the DAG sync entry point returns nil (net/server.go, read; the hook calls the same function)",
